@@ -129,7 +129,11 @@ var enumMethods = map[string][]method{
 			}
 		}
 	}}},
-	"ocsp.ResponseStatus": {{"String", func(v int) {
+	"ocsp.ResponseStatus": {{"String of the negative value -(v+1)", func(v int) {
+		// the underlying type is int and the wire field an ENUMERATED, which encoding/asn1 decodes as a signed value
+		use(ocsp.ResponseStatus(-v - 1).String())
+		use(ocsp.ResponseError{Status: ocsp.ResponseStatus(-v - 1)}.Error())
+	}}, {"String", func(v int) {
 		use(ocsp.ResponseStatus(v).String())
 		use(ocsp.ResponseError{Status: ocsp.ResponseStatus(v)}.Error())
 		if v == 0 {
